@@ -43,6 +43,8 @@ type BridgeCfg struct {
 	FeeMultiplier map[int]string
 	// EvmSkewSeconds: remote clock = paloma block time + skew
 	EvmSkewSeconds int64
+	// NContracts: number of echo contracts (wasm principals) to deploy after the bootstrap
+	NContracts int
 }
 
 // Bridge is a Sim plus remote chains and one pigeon per validator.
